@@ -1650,9 +1650,6 @@ void pristine_start(void) {
       pid_t c = fork();
       if (c == 0) {
         close(pp[0]);
-#if !VP_ASAN && !VP_TSAN
-        mallopt(M_PERTURB, 0x3C);  // (another heap-perturbation byte than the workload's)
-#endif
         env_t* e = env_create(q.N, q.native);
         opres_t r;
         op_exec(&OPS[q.op], e, q.seed, q.prefill, q.mis, 0, &r);
